@@ -69,10 +69,13 @@ func (n *naiveTSO) Commit(revision uint64) {
 			break
 		}
 	}
-	// in case leader transfer, need to update tso and pre tso
-	preTSO := atomic.LoadUint64(&n.dealRevision)
-	if preTSO < revision {
-		atomic.CompareAndSwapUint64(&n.dealRevision, preTSO, revision)
+	// in case leader transfer, need to update tso and pre tso; retried, because giving up after losing the
+	// compare-and-swap to a concurrent Commit of a smaller value would leave the allocator below the committed revision
+	for {
+		preTSO := atomic.LoadUint64(&n.dealRevision)
+		if preTSO >= revision || atomic.CompareAndSwapUint64(&n.dealRevision, preTSO, revision) {
+			break
+		}
 	}
 }
 
